@@ -74,6 +74,12 @@ def copyAll : List El → List Int × Nat
   | [] => ([], 0)
   | (k, v) :: t => let r := copyAll t; (v :: r.1, k.copyCost + r.2)
 
+/-- `pair()` / `tuple()`: `first(), second()` / every `tuple_leaf` value-initialises its element
+    (only for element types that can be value-initialised: `int`, `int const`) -/
+def defaultAll : List EK → List Int
+  | [] => []
+  | _ :: t => 0 :: defaultAll t
+
 /-- move construction of every element: `first(forward<U1>(p.first)), …`; returns the new object,
     what is left in the source, and the copies made (copy-only elements copy) -/
 def moveAll : List El → List Int × List Int × Nat
@@ -149,15 +155,21 @@ def pairGe (lt1 : α → α → Bool) (lt2 : β → β → Bool) (a b : α × β
 /-- `!=` is the rewritten `!(lhs == rhs)` -/
 def pairNe (eq1 : α → α → Bool) (eq2 : β → β → Bool) (a b : α × β) : Bool := !pairEq eq1 eq2 a b
 
-/-- the fold `((get<Is>(lhs) == get<Is>(rhs)) and ...)` over the common index sequence -/
-def eqFold (eq : α → α → Bool) : List α → List α → Bool
-  | x :: xs, y :: ys => eq x y && eqFold eq xs ys
-  | _, _ => true
+/-- the fold `((get<Is>(lhs) == get<Is>(rhs)) and ...)` over the common index sequence
+    `index_sequence_for<Ts...>`; the `requires(sizeof...(Ts) == sizeof...(Us))` clause is the bound -/
+def eqFold (eq : α → α → Bool) : List α → List α → Except Err Bool
+  | [], [] => .ok true
+  | x :: xs, y :: ys => do
+    let r ← eqFold eq xs ys
+    .ok (eq x y && r)
+  | _, _ => .error (.pre "tuple ==: requires equal arity")
 
-/-- tuple `operator==` (requires equal arity): `if constexpr (sizeof...(Ts) == 0) return false;`
-    else the fold -/
-def tupleEq (eq : α → α → Bool) (a b : List α) : Bool :=
-  if a.length = 0 then false else eqFold eq a b
+/-- tuple `operator==`: `requires(sizeof...(Ts) == sizeof...(Us))`;
+    `if constexpr (sizeof...(Ts) == 0) return true;` else the fold -/
+def tupleEq (eq : α → α → Bool) (a b : List α) : Except Err Bool :=
+  if a.length ≠ b.length then .error (.pre "tuple ==: requires equal arity")
+  else if a.length = 0 then .ok true
+  else eqFold eq a b
 
 end rel
 
@@ -192,10 +204,21 @@ inductive Cat where
   | k   -- const rvalue
   deriving Repr, DecidableEq, Inhabited
 
+/-- how one argument reaches the target -/
+inductive Via where
+  | val              -- by-value parameter: the category of the argument expression is not observable
+  | fwd (q : Cat)    -- forwarding parameter bound to an expression of category `q`
+  | wrap (q : Cat)   -- forwarding parameter bound to a `reference_wrapper<T>` expression of category `q`
+                     --   (the value logged is the referent's)
+  deriving Repr, DecidableEq, Inhabited
+
+/-- one argument: how it arrives, and its value -/
+abbrev Arg := Via × Int
+
 structure Call where
   tid : Nat                        -- which target
   self : Option Cat                -- category of the target object expression (none: a function)
-  args : List (Option Cat × Int)   -- category (none: by-value parameter) and value per argument
+  args : List Arg                  -- per argument: how it arrives and its value
   deriving Repr, DecidableEq, Inhabited
 
 abbrev Log := List Call
@@ -204,7 +227,7 @@ abbrev Log := List Call
 def resultOf (tid : Nat) (vals : List Int) : Int := vals.foldl (fun acc v => acc * 10 + v) (tid : Int)
 
 /-- one call of target `tid` through an object expression of category `self` -/
-def callTarget (tid : Nat) (self : Option Cat) (args : List (Option Cat × Int)) : Int × Log :=
+def callTarget (tid : Nat) (self : Option Cat) (args : List Arg) : Int × Log :=
   (resultOf tid (args.map (·.2)), [{ tid := tid, self := self, args := args }])
 
 /-- const-ness is kept, rvalue-ness is dropped (`*ptr`, `ref.get()`, a named object) -/
@@ -245,7 +268,7 @@ inductive Callee where
 
 /-- `etl::invoke(f, args...)`: `if constexpr (is_member_pointer_v<decay_t<F>>) invoke_memptr(f, args...)`
     else `forward<F>(f)(forward<Args>(args)...)`.  A member function logs the category of `*this`. -/
-def invoke (f : Callee) (args : List (Option Cat × Int)) : Except Err (Int × Log) :=
+def invoke (f : Callee) (args : List Arg) : Except Err (Int × Log) :=
   match f with
   | .fn tid => .ok (callTarget tid none args)
   | .fob tid c => .ok (callTarget tid (some c) args)
@@ -256,38 +279,55 @@ def invoke (f : Callee) (args : List (Option Cat × Int)) : Except Err (Int × L
 
 /-- `reference_wrapper<T>::operator()(args...)` = `invoke(get(), forward<Args>(args)...)`;
     `cst` = the wrapper is `reference_wrapper<T const>` -/
-def refWrapCall (tid : Nat) (cst : Bool) (args : List (Option Cat × Int)) : Except Err (Int × Log) :=
+def refWrapCall (tid : Nat) (cst : Bool) (args : List Arg) : Except Err (Int × Log) :=
   invoke (.fob tid (if cst then .c else .l)) args
 
 /-- `function_ref<R(Args...)>::operator()(args...)` = `_callable(_obj, forward<Args>(args)...)` →
     `invoke_r<R>(*func, forward<Args>(args)...)`: the referenced object is called as an lvalue of the
     const-ness it was bound with; by-value parameters arrive as rvalues, reference parameters unchanged.
     `ptypes` = per parameter of the signature: `none` by value, `some c` a reference of that category. -/
-def paramArrives : Option Cat × Int → Option Cat × Int
-  | (none, v) => (some .r, v)        -- `forward<T>(param)` of a by-value parameter is an rvalue
-  | (some c, v) => (some c, v)
+def paramArrives : Arg → Arg
+  | (.val, v) => (.fwd .r, v)        -- `forward<T>(param)` of a by-value parameter is an rvalue
+  | a => a
 
-def functionRefCall (callee : Callee) (args : List (Option Cat × Int)) : Except Err (Int × Log) :=
+def functionRefCall (callee : Callee) (args : List Arg) : Except Err (Int × Log) :=
   let callee' := match callee with
     | .fob tid c => .fob tid c.asLvalue     -- `*func`
     | other => other
   invoke callee' (args.map paramArrives)
 
 /-- how a call wrapper object is called: the four ref-qualified `operator()` overloads -/
-def boundArg (q : Cat) (v : Int) : Option Cat × Int := (some q, v)
+def boundArg (q : Cat) (v : Int) : Arg := (.fwd q, v)
+
+/-- an argument handed to `bind_front`: `_boundArgs` is `tuple<decay_t<BoundArgs>...>`, so a plain argument
+    is stored as a copy and a `reference_wrapper<T>` argument is stored as that wrapper (it is *not*
+    unwrapped into `T&`: [func.bind.partial]); the value is the (referent's) value at the time of the call -/
+inductive Bound where
+  | val (v : Int)
+  | refw (v : Int)
+  deriving Repr, DecidableEq, Inhabited
+
+def Bound.value : Bound → Int
+  | .val v => v
+  | .refw v => v
+
+/-- `forward<BoundArgs>(bound)` of the element of the `q`-qualified tuple -/
+def Bound.arrives (q : Cat) : Bound → Int → Arg
+  | .val _, v => (.fwd q, v)
+  | .refw _, v => (.wrap q, v)
 
 /-- `bind_front_t::operator()(callArgs...)` with qualifier `q`:
     `&`/`const&`: `bind_front_caller(_func, _boundArgs, forward<CallArgs>(callArgs)...)`,
     `&&`/`const&&`: `bind_front_caller(move(_func), move(_boundArgs), …)`; the caller is
     `apply([&](auto&&... bound) { return invoke(forward<Func>(func), forward<BoundArgs>(bound)..., forward<CallArgs>(callArgs)...); }, forward<Tuple>(tuple))` -/
-def bindFrontCall (mk : Cat → Callee) (q : Cat) (bound : List Int) (args : List (Option Cat × Int)) :
+def bindFrontCall (mk : Cat → Callee) (q : Cat) (bound : List Bound) (args : List Arg) :
     Except Err (Int × Log) := do
-  let bs ← getAll bound               -- `apply` expands `get<I>(forward<Tuple>(t))...`
-  invoke (mk q) (bs.map (boundArg q) ++ args)
+  let bs ← getAll (bound.map (·.value))    -- `apply` expands `get<I>(forward<Tuple>(t))...`
+  invoke (mk q) ((bound.zip bs).map (fun p => p.1.arrives q p.2) ++ args)
 
 /-- `not_fn_t::operator()(args...)` with qualifier `q`: `not invoke(f | move(f), forward<Args>(args)...)`;
     the target returns `pred`, the log is the target's -/
-def notFnCall (tid : Nat) (q : Cat) (pred : Bool) (args : List (Option Cat × Int)) : Except Err (Bool × Log) := do
+def notFnCall (tid : Nat) (q : Cat) (pred : Bool) (args : List Arg) : Except Err (Bool × Log) := do
   let r ← invoke (.fob tid q) args
   .ok (!pred, r.2)
 
@@ -453,7 +493,7 @@ inductive CallRes where
 
 /-- what the closure `[id, n](int x) mutable` returns and logs; it increments its own counter -/
 def fnResult (f : Fn) (x : Int) : Int := resultOf f.id [(f.n : Int), x]
-def fnLog (f : Fn) (x : Int) : Call := { tid := f.id, self := some .l, args := [(none, (f.n : Int)), (some .r, x)] }
+def fnLog (f : Fn) (x : Int) : Call := { tid := f.id, self := some .l, args := [(.val, (f.n : Int)), (.fwd .r, x)] }
 
 /-- `operator()(args...) const` = `_vtable->invoke_ptr(&_storage, forward<Args>(args)...)`:
     the empty thunk raises; a typed thunk calls `(*static_cast<C*>(p))(static_cast<Args&&>(args)...)` -/
